@@ -420,6 +420,20 @@ func (cs *clientStream) doHttpCall(transport http.RoundTripper, req *http.Reques
 	var rErr error
 	rMuHeld := false
 
+	// The rest of the reply body is drained only after the stream has been
+	// marked done (this runs last). Draining first, with rMu still held, can
+	// deadlock: when the handler returns while the client is still sending, the
+	// server does not finish the reply until it has read the request to its
+	// end, and the client could not end the request (SendMsg and CloseSend
+	// callers wait on rMu, and the request pipe is only closed on completion).
+	var replyBody io.ReadCloser
+	defer func() {
+		if replyBody != nil {
+			ioutil.ReadAll(replyBody)
+			replyBody.Close()
+		}
+	}()
+
 	defer func() {
 		if !rMuHeld {
 			cs.rMu.Lock()
@@ -439,7 +453,13 @@ func (cs *clientStream) doHttpCall(transport http.RoundTripper, req *http.Reques
 			}
 		}
 		cs.done = true
-		readPipe.CloseWithError(rErr)
+		pipeErr := rErr
+		if pipeErr == nil {
+			// a send that is in flight when the call completes fails like any
+			// later send does
+			pipeErr = io.EOF
+		}
+		readPipe.CloseWithError(pipeErr)
 		close(cs.rCh)
 	}()
 
@@ -477,10 +497,7 @@ func (cs *clientStream) doHttpCall(transport http.RoundTripper, req *http.Reques
 		onReady(statusFromContextError(err), nil)
 		return
 	}
-	defer func() {
-		ioutil.ReadAll(reply.Body)
-		reply.Body.Close()
-	}()
+	replyBody = reply.Body
 
 	if len(cs.copts.Peer) > 0 {
 		cs.copts.SetPeer(getPeer(cs.baseUrl, reply.TLS))
